@@ -1124,3 +1124,35 @@ def t_loc_triple(facts, res, tier):
                          "the including file and line are lost (only this kind of error loses them)" % fn["name"])
     if n_sites == 0:
         raise AnchorMissing("no error literal built from the line map found")
+
+
+# ----------------------------------------------------------------------------- C06 (every mapped line is a line)
+
+
+@rule("T-LINE-TERMINATED", floor=1,
+      text="every text line the preprocessor writes (one line-map entry each) ends with a newline in the output, so that output line k is map "
+           "entry k: the newline added after a line that lacks one may only be withheld for the last line of the top-level input, never inside "
+           "an included file (whose last line would be glued to the next line of the includer while both keep their own map entry)")
+def t_line_terminated(facts, res, tier):
+    fn = facts.fn("process", "")
+    sites = 0
+    for n in walk(fn["body"]):
+        if n.get("k") != "if":
+            continue
+        then_t = norm(n["then"])
+        if not re.match(r'^\{?output\.write_all\([^;]*\)\??;?\}?$', then_t):
+            continue
+        ct = norm(n["cond"])
+        if "ends_with" not in ct:
+            continue
+        sites += 1
+        key = "T-LINE-TERMINATED:process:%d" % sites
+        res.inst(key, True, {"condition": ct})
+        restricted = "has_lf" in ct
+        covers_includes = "includes_stack" in ct or "included" in ct
+        if restricted and not covers_includes:
+            res.fail("T-LINE-TERMINATED:process:include-last-line", facts.where(fn, n),
+                     "the newline after a line that lacks one is only written when the source line had one (`%s`): the last line of an included file without "
+                     "a final newline is glued to the next line of the including file, and every later line is reported one line too early" % ct[:80])
+    if sites == 0:
+        raise AnchorMissing("the conditional newline after a text line was not found in process()")
